@@ -428,13 +428,56 @@ def interleaved_calls(chk, cases, observations):
         return i, [k for k in keys if o.get(k) != observations[i].get(k)] + (["error"] if o["error"] else [])
 
     bad = []
+    import sys
+
+    old_switch = sys.getswitchinterval()
+    sys.setswitchinterval(1e-6)   # let the interpreter change thread between (almost) any two bytecodes
     with ThreadPoolExecutor(max_workers=6) as ex:
         for rep in range(3):
             order = idx[rep:] + idx[:rep]
             for i, d in ex.map(again, order):
                 if d:
                     bad.append((i, d))
-    return 3 * len(idx), bad
+    # many short calls: six threads, each with its own smoothing constant, series of ONE length (whatever is shared between
+    # calls is then wrong for the neighbour), every result compared bit for bit with the same call made alone
+    import threading
+
+    from black_it.utils import time_series as ts
+
+    n_long = 3 * len(idx)
+    rng = np.random.default_rng(chk.rng.below(2**31))
+    ys = [np.cumsum(rng.standard_normal(120)) + 10.0 for _ in range(8)]
+    lams = (1600.0, 6.25, 129600.0)
+    ref = {(k, lam): [a.tobytes() for a in ts.hp_filter(ys[k].copy(), lam)] for k in range(len(ys)) for lam in lams}
+    iters = 700 if chk.tier == "quick" else 4000
+    found, counts = [], [0] * 6
+    long_case = {"kind": "hp", "shape": "walk", "n": 120, "scale": 1.0, "lam": None, "series": [],
+                 "note": f"random walks of length 120 (numpy default_rng seeded from VERIF_SEED), lambdas {lams}, 6 threads x {iters} calls"}
+
+    def worker(w):
+        lam = lams[w % len(lams)]
+        for it in range(iters):
+            if found:
+                return
+            k = (it + w) % len(ys)
+            try:
+                d = [a.tobytes() for a in ts.hp_filter(ys[k].copy(), lam)] != ref[(k, lam)]
+            except Exception as e:  # noqa: BLE001
+                d = f"{type(e).__name__}: {e}"
+            counts[w] += 1
+            if d:
+                found.append((long_case, ["trend/cycle" if d is True else d]))
+                return
+
+    ths = [threading.Thread(target=worker, args=(w,), daemon=True) for w in range(6)]
+    for t in ths:
+        t.start()
+    for t in ths:
+        t.join(600)
+    n_long += sum(counts)
+    bad += found[:1]
+    sys.setswitchinterval(old_switch)
+    return n_long, bad
 
 
 def run(chk, replay=None):
@@ -507,11 +550,12 @@ def run(chk, replay=None):
     diag["evaluations_repeated_from_6_threads"] = n_threaded
     if tbad:
         i, d = tbad[0]
-        chk.violation({"kind": "oracle", "filter": cases[i]["kind"], "clause": "concurrent-call-differs"},
-                      {"failed": f"oracle:concurrent-call-differs: {cases[i]['kind']} (n={cases[i]['n']}, lam={cases[i].get('lam')}) evaluated "
+        tc = i if isinstance(i, dict) else cases[i]
+        chk.violation({"kind": "oracle", "filter": tc["kind"], "clause": "concurrent-call-differs"},
+                      {"failed": f"oracle:concurrent-call-differs: {tc['kind']} (n={tc['n']}, lam={tc.get('lam')}) evaluated "
                                  f"while other lengths / lambdas were being evaluated in other threads returned a different {d} than "
                                  f"when evaluated alone ({len(tbad)} of {n_threaded} repeated evaluations differ)",
-                       "case": cases[i], "observed": observations[i]})
+                       "case": tc, "observed": None if isinstance(i, dict) else observations[i]})
     for e in err_hp + err_ln:
         chk.violation({"kind": "correspondence", "name": "coqc"}, {"failed": "correspondence:coqc", "detail": e}, no_input=True)
 
